@@ -375,3 +375,5 @@ func runCase(c Case, ctx *hx.Ctx) *hx.Failure {
 func TestPropPairs(t *testing.T) { hx.Check(t, 20000, genCase, runCase) }
 
 func TestReplay(t *testing.T) { hx.Replay(t, "TestPropPairs", 1, runCase) }
+
+func FuzzPairs(f *testing.F) { hx.Fuzz(f, genCase, runCase) }
